@@ -18,7 +18,10 @@ Driver for C16.  Ops (one history per case; every token an integer, -1 = nil poi
   pconc <fresh> <n> (<node> <ns>)*      n goroutines                       -> conc …
  harness arb (pkg/descheduler/controllers/migration/arbitrator)
   cfg <maxGlobal> <maxNode> <maxNs> <maxMigr> <maxUnav>
-  wl <id> <replicas> | pod <id> <node> <ns> <wl> <ready> <ann> | delpod <id> | ready <id> <b>
+  cfgx <mmKind> <muKind> <skipCheckExpectedReplicas> <n> <gate code>*      per-workload limit forms (0 nil/int, 1 percent, 2 malformed), SkipEvictionGates
+  wl <id> <replicas> | pod <id> <node> <ns> <wl> <ready> <ann> [<terminating> <podphase>] | delpod <id> | ready <id> <b>
+  term <id>                             pod gets a deletionTimestamp      | pphase <id> <podphase 0 Running 1 Pending 2 Succeeded 3 Failed>
+  restart                               new arbitrator + filter, Create event for every job in the API -> state block
   job <id> <pod> <ns> <phase> <passedAnn> <arbitrated> <waiting>          direct creation
   create <id> <pod>                     arbitrator.Filter then create+Add  -> filter <b>
   phase <id> <phase>                    status change + handler.Update     -> state block
@@ -108,10 +111,25 @@ def runLine (d : DSt) (line : String) : DSt × List String :=
       -- arbitrator
       | "cfg", [mg, mn, ms, mm, mu] =>
         ({ d with cfg := { d.cfg with maxGlobal := mg, maxNode := mn, maxNs := ms, maxMigr := mm, maxUnav := mu } }, [])
+      | "cfgx", mk :: uk :: cer :: ns :: codes =>
+        if codes.length ≠ ns.toNat then (d, ["bad-op"]) else
+        ({ d with cfg := { d.cfg with mmKind := mk.toNat, muKind := uk.toNat, skipCER := cer ≠ 0,
+                                      skip := codes.map Int.toNat } }, [])
       | "wl", [id, r] =>
         ({ d with cfg := { d.cfg with replicas := (id.toNat, r.toNat) :: d.cfg.replicas } }, [])
       | "pod", [id, n, s, w, rd, an] =>
-        ({ d with arb := { d.arb with pods := d.arb.pods ++ [⟨id.toNat, n.toNat, s.toNat, w.toNat, rd ≠ 0, an ≠ 0⟩] } }, [])
+        ({ d with arb := { d.arb with pods := d.arb.pods ++ [⟨id.toNat, n.toNat, s.toNat, w.toNat, rd ≠ 0, an ≠ 0, false, 0⟩] } }, [])
+      | "pod", [id, n, s, w, rd, an, tm, ph] =>
+        ({ d with arb := { d.arb with pods := d.arb.pods ++ [⟨id.toNat, n.toNat, s.toNat, w.toNat, rd ≠ 0, an ≠ 0, tm ≠ 0, ph.toNat⟩] } }, [])
+      | "term", [id] =>
+        ({ d with arb := { d.arb with pods := d.arb.pods.map fun p =>
+            if p.id == id.toNat then { p with term := true } else p } }, [])
+      | "pphase", [id, ph] =>
+        ({ d with arb := { d.arb with pods := d.arb.pods.map fun p =>
+            if p.id == id.toNat then { p with phase := ph.toNat } else p } }, [])
+      | "restart", [] =>
+        let a' := { d.arb with arbitrated := [], waiting := d.arb.jobs.map (·.id) }
+        ({ d with arb := a' }, stateBlock a')
       | "delpod", [id] =>
         ({ d with arb := { d.arb with pods := d.arb.pods.filter fun p => p.id != id.toNat } }, [])
       | "ready", [id, b] =>
